@@ -144,8 +144,18 @@ func genCfg(t *rapid.T, p *genProfile) Cfg {
 	}
 	c.IndexInterval = rapid.SampledFrom([]int64{32, 300, 512, 4096}).Draw(t, "ii")
 	c.BodyMax = rapid.SampledFrom([]int64{512, 4096, 64 << 10, 1 << 20}).Draw(t, "bodymax")
+	if p.tinyFiles {
+		// small body_max makes "append to an earlier, not full file" a frequent GC destination
+		c.BodyMax = rapid.SampledFrom([]int64{300, 512, 512, 1024, 4096}).Draw(t, "bodymax_tiny")
+	}
 	if p.bigValues {
 		c.BodyMax = 50 << 20
+	}
+	// implicit precondition of every deployment (4000M files, 50M bodies): a data file holds at least one record of
+	// maximal size; GC's destination bookkeeping relies on it (a record larger than a file makes the destination
+	// run ahead of the source)
+	if c.BodyMax > c.DataFileMax-512 {
+		c.BodyMax = c.DataFileMax - 512
 	}
 	c.BodyInC = rapid.SampledFrom([]int64{0, 64, 4096}).Draw(t, "bodyinc")
 	c.BufIOCap = rapid.SampledFrom([]int{16, 300, 4096, 1 << 20}).Draw(t, "bufio")
@@ -309,6 +319,7 @@ func genOp(t *rapid.T, c *Cfg, p *genProfile, kinds []string, inGrp []bool) Op {
 		if op.Mask == "subset" {
 			op.MaskSel = rapid.Uint64().Draw(t, "sel")
 		}
+		op.Race = p.park && rapid.IntRange(0, 2).Draw(t, "race") == 0
 	case "gc":
 		op.Bucket = rapid.IntRange(0, 255).Draw(t, "bucket")
 		op.Begin = rapid.IntRange(-1, 8).Draw(t, "begin")
